@@ -1435,7 +1435,7 @@ pub fn inspector_transparency() -> String {
         }
     }
     let mut out = String::new();
-    for w in ["inspector_instruction", "call-wrapper", "create-wrapper", "eofcreate-wrapper", "call_end-wrapper", "create_end-wrapper", "eofcreate_end-wrapper"] {
+    for w in ["inspector_instruction", "call-wrapper", "create-wrapper", "eofcreate-wrapper", "call_end-wrapper", "create_end-wrapper", "eofcreate_end-wrapper", "last_frame_return-wrapper"] {
         out += &format!("[{} differential: {}{}] ", w, summary.replace('[', "(").replace(']', ")"), if same { "" } else { " MISMATCH" });
     }
     out
